@@ -33,7 +33,9 @@ CONSTANTS MaxOps,      \* programs have at most MaxOps top-level operators
 \*   nf    -- the stream really has its null/missing keys first
 \*   multi -- the key was unified over several parents (the stream is their combine)
 \*   lost  -- the stream is in fact no longer sorted by f
-Key(f, desc, nf) == [f |-> f, desc |-> desc, nf |-> nf, multi |-> FALSE, lost |-> FALSE]
+\*   strm  -- the stream reaches this point from the source without a blocking
+\*            operator (sort), i.e. it is delivered batch by batch
+Key(f, desc, nf) == [f |-> f, desc |-> desc, nf |-> nf, multi |-> FALSE, lost |-> FALSE, strm |-> FALSE]
 NoKey == Key("", FALSE, FALSE)
 KeyEq(a, b) == a.f = b.f /\ a.desc = b.desc           \* order.SortKeys.Equal
 IsNil(k) == k.f = ""
@@ -154,8 +156,13 @@ PSKOp(op, parents, acc) ==
            rd == IF ~IsNil(rr) /\ rr.f = "a" THEN DirOf(rr) ELSE op.rdir
            \* join.New compares with nullsMax (nulls first iff desc); the stream has them first iff nf
            bad(k) == ~IsNil(k) /\ k.f = "a" /\ (k.nf # k.desc \/ k.lost \/ k.multi)
+           \* A side whose sort is skipped is read incrementally; when that side streams from
+           \* the fork that also feeds the other side, the fork (which hands every batch to all
+           \* of its exits before the next one) and the join wait for each other.
+           hang(k) == ~IsNil(k) /\ k.f = "a" /\ k.strm
        IN [op |-> [op EXCEPT !.ldir = ld, !.rdir = rd], keys |-> <<NoKey>>,
-           taint |-> acc.taint \cup (IF bad(l) \/ bad(rr) THEN {"join-dir-nulls"} ELSE {}),
+           taint |-> acc.taint \cup (IF bad(l) \/ bad(rr) THEN {"join-dir-nulls"} ELSE {})
+                                \cup (IF hang(l) \/ hang(rr) THEN {"join-lockstep"} ELSE {}),
            rules |-> acc.rules \cup (IF ld # 0 \/ rd # 0 THEN {"join-dir"} ELSE {})]
   ELSE
     \* "condense sort order into a single parent"
@@ -186,7 +193,7 @@ PSKOp(op, parents, acc) ==
               LET out == AnalyzeKeys(op, parent)
                   res == IF IsNil(out) THEN NoKey
                          ELSE IF op.k = "sort" THEN out
-                         ELSE [out EXCEPT !.lost = parent.lost \/ ~ReallyKeeps(op, parent), !.multi = parent.multi, !.nf = parent.nf]
+                         ELSE [out EXCEPT !.lost = parent.lost \/ ~ReallyKeeps(op, parent), !.multi = parent.multi, !.nf = parent.nf, !.strm = parent.strm]
               IN [op |-> op, keys |-> <<res>>, taint |-> acc.taint, rules |-> acc.rules]
 
 PSK(seq, parents, acc) ==
@@ -210,8 +217,8 @@ LegEntries(r, i, m) ==
        IN LegEntries(Acc([r.seq EXCEPT ![i] = [r.seq[i] EXCEPT !.legs = [r.seq[i].legs EXCEPT ![m] = sub.seq]]],
                          sub.taint, sub.rules), i, m + 1)
 
-SrcKey(sk) == IF sk = "a:asc" THEN Key("a", FALSE, FALSE)
-              ELSE IF sk = "a:desc" THEN Key("a", TRUE, TRUE)     \* a truthful desc key: nulls first (nullsMax)
+SrcKey(sk) == IF sk = "a:asc" THEN [Key("a", FALSE, FALSE) EXCEPT !.strm = TRUE]
+              ELSE IF sk = "a:desc" THEN [Key("a", TRUE, TRUE) EXCEPT !.strm = TRUE]     \* a truthful desc key: nulls first (nullsMax)
               ELSE NoKey
 
 \* Optimize: result [src, ops, taint, rules]
